@@ -10,7 +10,7 @@ EXTENDS RegHttp, SequencesExt
 CONSTANTS Rs,        \* retry limits explored
           Prios,     \* priorities a host may get
           Meths,     \* request methods explored
-          Waive      \* sequence handed to (P): <<>> or <<"prio">>
+          Waive      \* sequence handed to (P): <<>> or <<"prio-asc">>
 VARIABLES m, bad
 mvars == <<vars, m, bad>>
 
@@ -33,7 +33,7 @@ AllConfs == {[R |-> r, dmax |-> 4, prio |-> p, req |-> q] :
 EqConfs == {c \in AllConfs : \A g, h \in Hosts : c.prio[g] = c.prio[h]}
 
 WaiveNone == <<>>
-WaivePrio == <<"prio">>
+WaivePrio == <<"prio-asc">>
 
 MCInit == Init /\ m = P!PHeader(Header) /\ bad = ""
 Mon == m' = P!PFold(m, obs') /\ bad' = m'.bad
